@@ -117,8 +117,11 @@ func _deploy(data any, isUpdate bool) {
 				storage.Put(ctx, append([]byte{containerKeyPrefix}, item.key...), item.value)
 			}
 
-			// Migrate owner-cid map.
-			if len(item.key) == 25 /* owner id size */ +containerIDSize {
+			// Migrate owner-cid map. Keys of container size estimations have
+			// variable length and can be this long too, so items of the map are
+			// told by their value: the container ID the key ends with.
+			if len(item.key) == 25 /* owner id size */ +containerIDSize &&
+				string(item.value) == string(item.key[25:]) {
 				storage.Delete(ctx, item.key)
 				storage.Put(ctx, append([]byte{ownerKeyPrefix}, item.key...), item.value)
 			}
